@@ -57,7 +57,8 @@ SPEC = {
     "gens": ["MacroTables"],
     "lean_modules": ["RsslVerif.Thm.C12"],
     "theorems": [T + n for n in [
-        "source_shape", "define_undef_scoping", "api_duplicates_break_scoping", "include_is_paste", "pragma_once_once"]],
+        "source_shape", "expand_terminates", "object_like_is_substitution", "function_like_is_substitution",
+        "define_undef_scoping", "api_duplicates_break_scoping", "include_is_paste", "pragma_once_once"]],
     "harness": "c12",
     "nontrivial": nontrivial,
     "finding_key": finding_key,
